@@ -169,7 +169,8 @@ def hyp_cases(draw, tier):
         if len(spec) >= 2:
             a, b = spec[0], spec[1]
             if all(c[0] != a[0] for c in b[1]) and not (profile in ("fs", "fs_plain") and b[0] in serial.PERSON_LABELS):
-                b[1].insert(0, [a[0], []] + ([dict(a[2])] if len(a) > 2 and a[2] else []))
+                # (a node_id is unique in a tree: the clone does not inherit an explicit one)
+                b[1].insert(0, [a[0], []] + ([{k: v for k, v in a[2].items() if k != "nid"}] if len(a) > 2 and a[2] else []))
                 gen.fix_sibling_ids(spec)
     configs = draw(st.lists(serial.config(profile), min_size=3, max_size=6))
     return {"profile": profile, "spec": spec, "configs": configs}
